@@ -15,8 +15,43 @@ Definition c01_cmd_prelude : str := lit "set a 1; set b(1) x; proc p {x {y 2} ar
 
 Definition is_kind (c : term) (k : string) : bool := str_eqb (term_str (term_nth c 0)) (lit k).
 
+(* twin of harness c01::deep_text: the text and the entry point of a (construct, depth) pair *)
+Fixpoint rep (n : nat) (s acc : str) : str :=
+  match n with O => acc | S k => rep k s (s ++ acc) end.
+Definition which_is (which : str) (w : string) : bool := str_eqb which (lit w).
+Arguments which_is which w%string.
+Definition deep_text (which : str) (d : nat) : str * bool (* true = expression *) :=
+  if which_is which "open-bracket" then (lit "rec " ++ rep d [c_lbracket] [], false)
+  else if which_is which "bracket" then (lit "rec " ++ rep d (lit "[rec ") (lit "rec x" ++ rep d [c_rbracket] []), false)
+  else if which_is which "quoted-bracket" then
+    (lit "rec " ++ rep d ([c_dquote] ++ lit "[rec ") (lit "x" ++ rep d [c_rbracket; c_dquote] []), false)
+  else if which_is which "brace" then (lit "rec " ++ rep d [c_lbrace] (lit "x" ++ rep d [c_rbrace] []), false)
+  else if which_is which "open-brace" then (lit "llength {" ++ rep d [c_lbrace] [c_rbrace], false)
+  else if which_is which "paren" then (rep d [c_lparen] (lit "1" ++ rep d [c_rparen] []), true)
+  else if which_is which "open-paren" then (rep d [c_lparen] [], true)
+  else if which_is which "array-index" then (lit "rec " ++ rep d (lit "$b(") (lit "1" ++ rep d [c_rparen] []), false)
+  else (rep d [c_minus] (lit "1"), true).
+
+Definition to_nat_small (z : Z) : nat := Z.to_nat (Z.min (Z.max z 0) 1000000).
+
+Fixpoint hist_run (st : interp) (scripts : list str) (last_is_expr : bool) : term :=
+  match scripts with
+  | [] => TTag "none" []
+  | [s] => if last_is_expr then obs_res (snd (expr std_uni model_fuel st (VStr s)))
+           else obs_res (snd (eval std_uni model_fuel st s))
+  | s :: r => hist_run (fst (eval std_uni model_fuel st s)) r last_is_expr
+  end.
+
 Definition c01_model_obs (c : term) : term :=
-  if is_kind c "cmd" then
+  if is_kind c "hist" then
+    let '(st, _) := eval std_uni model_fuel (harness_interp 0) c01_prelude in
+    hist_run st (term_strs (term_nth c 2)) (str_eqb (term_str (term_nth c 1)) (lit "expr"))
+  else if is_kind c "deep" then
+    let '(text, is_expr) := deep_text (term_str (term_nth c 1)) (to_nat_small (term_int (term_nth c 2))) in
+    let '(st, _) := eval std_uni model_fuel (harness_interp 0) c01_prelude in
+    if is_expr then obs_res (snd (expr std_uni model_fuel st (VStr text)))
+    else obs_res (snd (eval std_uni model_fuel st text))
+  else if is_kind c "cmd" then
     let '(st, _) := eval std_uni model_fuel (harness_interp 0) c01_cmd_prelude in
     let argv := map VStr (term_strs (term_nth c 1)) in
     obs_res (snd (eval_value std_uni model_fuel st (VList argv)))
@@ -47,7 +82,14 @@ Definition is_crash (obs : term) : bool :=
   | _ => false
   end.
 Definition c01_spec_ok (c obs : term) : bool := negb (is_crash obs).
-Definition c01_known (c : term) : bool := false.
+(* Known class (known_findings.json, finding D30): the script and expression readers recurse on
+   the native stack once per nesting level of [ ] ( ) $a( and per unary operator, so input nested
+   deeper than a few thousand levels exhausts the stack and aborts the process.  Depths up to
+   1000 are never excused, nor is any construct that does not recurse (braces). *)
+Definition c01_known (c : term) : bool :=
+  is_kind c "deep"
+  && Z.leb 3000 (term_int (term_nth c 2))
+  && negb (str_eqb (term_str (term_nth c 1)) (lit "brace") || str_eqb (term_str (term_nth c 1)) (lit "open-brace")).
 Definition c01_nontrivial (c : term) : bool :=
   match c01_model_obs c with
   | TList (TStr t :: _) => str_eqb t (lit "Err")
